@@ -19,4 +19,9 @@ BPS == {<<"A1", "BSOL">>}
 WDP == {<<"A1", "SB1">>}
 SLC == {<<"A2", "A1", "SB1", "BSOL">>}
 NoTuplesS == {}
+\* long random walks (tlc -simulate): the edge counter is set once, at start-up, so that edge ids stay unique across behaviours
+ASSUME TLCSet(1, 1)
+InitSimS == /\ st = InitState /\ acc = C02AccNext(C02Acc0, InitState, [ev |-> "reset"], InitState)
+            /\ acc7 = C07Acc0 /\ sid = 0 /\ depth = 0
+SpecSimS == InitSimS /\ [][NextS]_vars
 =============================================================================
